@@ -178,15 +178,15 @@ def mutate_attr(
             raise
 
         # Invalidate any caches depending on this attribute
-        if not skip_invalidation and metadata and metadata.invalidation_map:
-            invalidate_attrs(obj, attr, metadata.invalidation_map)
+        if not skip_invalidation and metadata:
+            invalidate_attrs(obj, attr)
 
     return obj
 
 
 def invalidate_attrs(obj: Any, attr: str, invalidation_map: Dict[str, Set[str]] = None):
     if invalidation_map is None:
-        invalidation_map = obj.__spec_class__.invalidation_map
+        invalidation_map = obj.__spec_class__.invalidation_map_for(type(obj))
     if not invalidation_map:
         return
 
